@@ -13,7 +13,7 @@
 From Bobo Require Import Base.Prelude Base.History Model.Pattern Model.Run Model.Decider Model.Cluster Model.PredLang.
 From Bobo Require Import Proofs.RunProofs Proofs.DeciderLemmas Proofs.DeciderProofs Proofs.StepProofs.
 From Bobo Require Import Model.Converge Model.ConvergeC.
-From Bobo Require Import Proofs.ClusterProofs Proofs.RemoteWitness Proofs.JoinProofs Proofs.SyncProofs.
+From Bobo Require Import Proofs.ClusterProofs Proofs.RemoteWitness Proofs.JoinProofs Proofs.SyncProofs Proofs.SyncExample.
 
 (* a local change that leaves a run active is ahead of every identical copy (so the peers apply it):
    further along the pattern, or at the same looping block with one more event *)
@@ -105,3 +105,13 @@ Example C03_example :
                               BD [PDataEq 3] 3 false false false false] [] [] false])] 5 1000,
                2%nat, [(0%nat, mkEv 0 0 0 1 0 0); (0%nat, mkEv 1 1 0 2 0 0); (1%nat, mkEv 2 2 0 3 0 0)]) <> [-9].
 Proof. vm_compute. discriminate. Qed.
+
+(* non-vacuity of C03_replicas_equal: a two-instance cluster with a SINGLETON pattern a ; b meets every hypothesis
+   (well-formed configuration, singleton patterns with two blocks, the side conditions of both steps), the run
+   started at instance 0 is completed at instance 1, and both replicas end with the same (empty) table *)
+Example C03_replicas_equal_nonvacuous :
+  cfg_wf ev ex_cfg /\
+  (forall ph pat p, get_pattern ex_cfg ph pat = Some p -> p_single p = true -> (2 <= length (p_blocks p))%nat) /\
+  crun_ok ev ex_cfg ex_gen (repeat d_init 2) ex_inp /\
+  (exists ss ns, crun ex_cfg ex_gen (repeat d_init 2) ex_inp = Some (ss, ns)).
+Proof. exact (conj ex_cfg_wf (conj ex_single2 (conj ex_crun_ok ex_crun_some))). Qed.
